@@ -3073,6 +3073,12 @@ def run(ctx):   # noqa: F811
     guarded(ctx, "custom", run_custom, ctx, cuqi, th)
     guarded(ctx, "blocks", run_blocks, ctx, cuqi, th)
     guarded(ctx, "units", run_units, ctx, cuqi, th)
+    # session 3: whole-sampler streams
+    import sys
+    from harness.props import c05_mhn
+    guarded(ctx, "mhn-stream", c05_mhn.run_mhn_stream, ctx, cuqi, th, sys.modules[__name__])
+    from harness.props import c05_gmrf
+    guarded(ctx, "gmrf-large", c05_gmrf.run_gmrf_large, ctx, cuqi, th, sys.modules[__name__])
     # G8: every sample object returned during the whole run still holds the numbers it held when it was returned
     bad = 0
     for (obj, copy, what) in RETAINED:
